@@ -42,7 +42,7 @@ def install_creator_hook():
     _creator_hook = True
 
 
-def registry_check(w: World, handle, viol: list, label: str) -> int:
+def registry_check(w: World, handle, viol: list, label: str, cm=None) -> int:
     """At a quiescent moment: registry == connections that are open or being
     opened by a still-running attempt (ground truth: SimNet endpoints)."""
     net = handle.client.network
@@ -77,6 +77,19 @@ def registry_check(w: World, handle, viol: list, label: str) -> int:
         viol.append((f'registry:stale-entry:{st}:{label}',
                      {'incoming': c.incoming, 'typ': c.connection_type, 'transport_alive': alive,
                       'creator_task_done': None if task is None else task.done()}))
+    if cm is not None:
+        # the other direction: a peer connection that was reported CONNECTING / CONNECTED and not yet closing
+        # is open or being opened - it has to be in the registry
+        reg_ids = {id(c) for c in registered}
+        for cid, stream in cm.streams.items():
+            conn = cm.conns.get(cid)
+            if conn is None or not cm.kind(conn).startswith('peer') or getattr(conn, 'network', None) is not net:
+                continue
+            last = stream[-1][1]
+            n += 1
+            if last in ('CONNECTING', 'CONNECTED') and cid not in reg_ids:
+                viol.append((f'registry:missing-entry:{last}:{label}',
+                             {'incoming': conn.incoming, 'typ': conn.connection_type, 'states': [s_[1] for s_ in stream]}))
     return n
 
 
@@ -339,7 +352,7 @@ def run_c11_case(res: dict, params: dict, seed: Any, judge_c10: bool = False, ju
                     (t.get_name().startswith('direct-connect-') or t.get_name().startswith('indirect-connect-'))]
             if live:
                 viol.append(('c11:residue:live-connect-task', {'tasks': live, 'params': p}))
-        obs['registry_items'] += registry_check(w, me, viol if judge_c10 else [], 'after-connect-request')
+        obs['registry_items'] += registry_check(w, me, viol if judge_c10 else [], 'after-connect-request', cm=cm)
         me.events.clear()
         await w.stop_clients()
         return {'outcome': outcome, 'cancelled': cancelled, 't': [round(t_call, 3), round(t_ret, 3)],
@@ -483,6 +496,9 @@ def run_connect_back_case(res: dict, rng: random.Random, seed: Any, judge_c10: b
                 w.server.push('me', ConnectToPeer.Response(
                     peer.name, r['typ'], peer.ip, peer.port, r['ticket'], False,
                     1 if peer.obf_port else 0, peer.obf_port))
+        # a quiescent moment while slow connect-backs are still pending
+        await asyncio.sleep(1.0)
+        obs['registry_items'] += registry_check(w, me, viol if judge_c10 else [], 'during-connect-back', cm=cm)
         await settle(30.0)
         out = []
         for r in reqs:
@@ -519,7 +535,7 @@ def run_connect_back_case(res: dict, rng: random.Random, seed: Any, judge_c10: b
                         viol.append((f'c11:connect-back:both-pierce-and-cannot-connect:{b}', {'req': _pub(r)}))
                 else:
                     viol.append((f'c11:connect-back:pierce-{pierces}-cannot-{cannots}:{b}', {'req': _pub(r)}))
-        obs['registry_items'] += registry_check(w, me, viol if judge_c10 else [], 'after-connect-back')
+        obs['registry_items'] += registry_check(w, me, viol if judge_c10 else [], 'after-connect-back', cm=cm)
         await w.stop_clients()
         return out
 
@@ -787,11 +803,11 @@ def run_c10_endings_case(res: dict, rng: random.Random, seed: Any):
             results.append((sp['direction'], sp['init'], ending, None if conn is None else conn.state.name))
             if ending not in ('write-timeout', 'write-timeout-queued') and sp['init'] != 'silent':
                 await settle(0.5)
-                obs['registry_items'] += registry_check(w, me, viol, 'between-endings')
+                obs['registry_items'] += registry_check(w, me, viol, 'between-endings', cm=cm)
             sp['_conn'] = conn
             sp['_link'] = link
         await settle(70.0)
-        obs['registry_items'] += registry_check(w, me, viol, 'after-endings')
+        obs['registry_items'] += registry_check(w, me, viol, 'after-endings', cm=cm)
         # send after CLOSED must not put bytes on the wire and no message may be delivered after CLOSED
         for sp in specs:
             conn = sp.get('_conn')
